@@ -1,8 +1,8 @@
 SPECIFICATION Spec
 CONSTANTS
   NF = 3
-  Cap <- Cap3
-  IsSync <- Sync3
+  Cap <- Cap2
+  IsSync <- Sync2
   MaxOps = 4
   OpKinds <- AllOps
   FocusMode = FALSE
